@@ -1,6 +1,6 @@
 (* C03 - the aspif reader accepts exactly well-formed aspif and never alters a number.  Statements only.
    Declarative description: C03/Spec.v (abstract program with unbounded integer fields + layout, render, in_range, calls). *)
-Require Import V.Lib.Base V.Lib.Calls V.C09.Spec V.C01.Read V.C01.ProofsPrim V.C03.Spec V.C03.ProofsSpec V.C03.ProofsProg.
+Require Import V.Lib.Base V.Lib.Calls V.Lib.Contract V.C09.Spec V.C01.Read V.C01.Wf V.C01.ProofsPrim V.C03.Spec V.C03.ProofsSpec V.C03.ProofsProg V.C03.ProofsInv V.C03.ProofsContract.
 Local Open Scope Z_scope.
 
 (* every text that is the rendering of an in-range program - under EVERY layout - is accepted and delivers exactly the denoted calls *)
@@ -35,6 +35,36 @@ Proof.
   destruct (m_range lo hi (amk (render_num l v ++ r) ln)); [destruct H as (H1 & H2 & H3); repeat split; try assumption; lia | lia].
 Qed.
 Print Assumptions c03_field.
+
+(* ---- for EVERY text (any byte list, no well-formedness hypothesis) ---- *)
+
+(* a rejection carries a line between 1 and the number of lines of the text (1 + number of LF / CR / CRLF terminators);
+   read_all returns one outcome, so there is exactly one report; line 0 - the model's "out of fuel" - never occurs *)
+Theorem c03_line : forall t cs ln, read_all t = (cs, Err ln) -> 1 <= ln <= lines t.
+Proof. exact line_bound. Qed.
+Print Assumptions c03_line.
+
+(* every delivered call - on acceptance and before an error - has all arguments inside the documented ranges *)
+Theorem c03_delivers_wf : forall t, Forall (fun c => wf_call c = true) (fst (read_all t)).
+Proof. exact delivered_wf. Qed.
+Print Assumptions c03_delivers_wf.
+
+(* the delivered sequence is framed: init once and first, directives only inside begin/end, end only after a complete step *)
+Theorem c03_contract : forall t, contract_ok (fst (read_all t)) = true.
+Proof. exact reader_contract. Qed.
+Print Assumptions c03_contract.
+Theorem c03_steps_closed : forall t cs, read_all t = (cs, Ok) -> steps_closed cs = true.
+Proof. exact reader_steps_closed. Qed.
+Print Assumptions c03_steps_closed.
+
+(* an accepted text delivers a complete well-formed trace: one or more closed steps, exactly one unless incremental, no weight-0 literal *)
+Theorem c03_accepted_trace : forall t cs, read_all t = (cs, Ok) -> wf_trace cs /\ forallb wf_call cs = true /\ norm cs = cs.
+Proof. exact accepted_trace. Qed.
+Print Assumptions c03_accepted_trace.
+
+(* NOT delivered: c03_sound (accepted -> the text is the rendering of some in-range program) and c03_truncated.  What is proved in
+   their direction: c03_rejects for every rendering with a field / code / step count out of range, and c03_accepted_trace +
+   c03_delivers_wf for arbitrary texts (nothing out of range is ever delivered). *)
 
 (* non-vacuity: a laid-out text (tabs, CRLF, '+', leading zeros, comment, odd string separator, body code 2, two steps) *)
 Definition L (ws : list Z) (plus : bool) (z : nat) : lay := mkLay ws plus z.
